@@ -48,6 +48,8 @@ FIXED = [
     ("C19", ["battery_exception:FileNotFoundError:no_power_supply_class_dir"], "fix: sensors_battery() raised FileNotFoundError", "no /sys/class/power_supply"),
     ("C19", ["cpu_freq_current_off_by_1khz:cpuinfo_mhz_float_truncation"], "fix: cpu_freq() truncated the /proc/cpuinfo frequency", "cpu MHz 1034.091"),
     ("C20", ["windows_broadcast_discarded"], "fix: net_if_addrs() on Windows computed the broadcast address", "192.168.1.10/255.255.255.0 -> broadcast None"),
+    ("C20", ["doc_unqualified_name_missing:STATUS_WAKE_KILL", "doc_promised_name_missing:netbsd:STATUS_SUSPENDED"],
+     "fix: export the documented STATUS_WAKE_KILL and STATUS_SUSPENDED", "psutil.STATUS_WAKE_KILL -> AttributeError although documented and returned by status()"),
     ("C20", ["sunos_terminal_ignores_PRNODEV"], "fix: SunOS Process.terminal() ignored PRNODEV", "ttynr == PRNODEV with /proc/<pid>/path/0 readable"),
 ]
 
